@@ -27,6 +27,11 @@
  *   M  (server-side session) a multicast NON GET /r from the peer: the response is delayed through
  *      the send queue;  Y  the leisure timer of that delayed response fires (coap_retransmit on
  *      the is_mcast node) - the response datagram is reported as item Wm
+ *   G  (client session) the keepalive period is over: coap_io_prepare_io() sends the library's own
+ *      empty-CON ping if the session is established and has no CON in flight (ids 50001+1000*sid..);
+ *      K<secs> at the start of a natural-time case enables keepalive there
+ *   H<sid>,<mid>,<newmid>,<newtok>  the nack handler, called for (sid, mid) after a give-up or a Reset,
+ *      submits a new CON from inside the callback (items "(" .. a / x bracket what that nested coap_send produced and its result)
  *   E  the next socket write fails with ENOBUFS (reported as item E<c|n><mid>.<tok>)
  * "W" mode (natural time): W<ms> advances the virtual clock and lets coap_io_prepare_epoll fire
  * whatever is due.
@@ -102,9 +107,30 @@ ssize_t __wrap_coap_netif_dgrm_write(coap_session_t *session, const uint8_t *dat
   return __real_coap_netif_dgrm_write(session, data, datalen);
 }
 
+/* H<sid>,<mid>,<newmid>,<newtok>: when the nack handler is called for (sid, mid) because the message
+ * was given up or reset, the application submits a new CON from inside the handler (the usual
+ * "retry"); reported as item a / x (result of that nested coap_send) + its datagram if any */
+#define MAXHOOK 64
+static struct { int sid, mid, newmid, newtok, used; } hooks[MAXHOOK];
+static int nhooks, in_disconnect;
+static coap_pdu_t *mk_pdu(int sid, char ty, int mid, int tok);
+
 static void on_nack(coap_session_t *s, const coap_pdu_t *sent, const coap_nack_reason_t reason,
                     const coap_mid_t mid) {
-  item(sid_of(s), "N%d.%d.%d", (int)reason, (int)mid, sent ? 1 : 0);
+  int sid = sid_of(s);
+  item(sid, "N%d.%d.%d", (int)reason, (int)mid, sent ? 1 : 0);
+  /* not from inside a disconnect (whatever is submitted there is thrown away with the queues) */
+  if (in_disconnect || (reason != COAP_NACK_TOO_MANY_RETRIES && reason != COAP_NACK_RST)) return;
+  for (int h = 0; h < nhooks; h++)
+    if (!hooks[h].used && hooks[h].sid == sid && hooks[h].mid == (int)mid) {
+      hooks[h].used = 1;
+      coap_pdu_t *p = mk_pdu(sid, 'c', hooks[h].newmid, hooks[h].newtok);
+      /* "(" .. "a" | "x" bracket what the nested call produces and its result */
+      item(sid, "(");
+      if (coap_send(s, p) == COAP_INVALID_MID) item(sid, "x");
+      else item(sid, "a");
+      break;
+    }
 }
 
 static coap_response_t on_resp(coap_session_t *s, const coap_pdu_t *sent, const coap_pdu_t *rcv,
@@ -139,6 +165,24 @@ static void inject(int sid, const uint8_t *d, size_t n) {
   else vn_inject_session(ctx, sess[sid], d, n);
 }
 
+/* some variety that must not matter to the accounting: method / response code, a Uri-Path option,
+ * a payload (all derived from the message id); a client session sends requests, a server-side
+ * session responses / notifications */
+static coap_pdu_t *mk_pdu(int sid, char ty, int a, int b) {
+  static const coap_pdu_code_t req_code[3] = {COAP_REQUEST_CODE_GET, COAP_REQUEST_CODE_POST,
+                                              COAP_REQUEST_CODE_PUT};
+  static const coap_pdu_code_t rsp_code[3] = {COAP_RESPONSE_CODE_CONTENT, COAP_RESPONSE_CODE_CHANGED,
+                                              COAP_RESPONSE_CODE_NOT_FOUND};
+  coap_pdu_t *p = coap_pdu_init(ty == 'c' ? COAP_MESSAGE_CON : COAP_MESSAGE_NON,
+                                is_server[sid] ? rsp_code[a % 3] : req_code[a % 3],
+                                (coap_mid_t)a, 64);
+  uint8_t tk[2] = {(uint8_t)(b >> 8), (uint8_t)b};
+  coap_add_token(p, 2, tk);
+  if (!is_server[sid] && (a & 2)) coap_add_option(p, COAP_OPTION_URI_PATH, 1, (const uint8_t *)"r");
+  if (a & 1) coap_add_data(p, 3, (const uint8_t *)"abc");
+  return p;
+}
+
 static void fire_timer(coap_session_t *s, int mid) {
   coap_queue_t *node = NULL;
   coap_lock_lock(ctx, return);
@@ -163,11 +207,24 @@ static void do_case(void) {
   }
   vn_on_send = on_send;
   fail_next_write = 0;
+  nhooks = 0;
   recording = 0;
   ctx = coap_new_context(NULL);
   if (!ctx) { puts("ERROR no context"); return; }
   coap_register_nack_handler(ctx, on_nack);
   coap_register_response_handler(ctx, on_resp);
+  /* keepalive: the library's own empty-CON ping.  Forced-timer mode: 1 s - with the clock frozen
+   * at 1000 and last_rx_tx = 1000 no ping is ever due by itself; op G makes one due.  Natural
+   * time: only when the case starts with K<seconds>. */
+  {
+    int natural = 0, ka = 0;
+    for (int i = 3 + nsess; i < vntok; i++) {
+      natural |= vtok[i][0] == 'W';
+      if (vtok[i][0] == 'K') ka = atoi(vtok[i] + 1);
+    }
+    if (!natural) coap_context_set_keepalive(ctx, 1);
+    else if (ka > 0) coap_context_set_keepalive(ctx, (unsigned)ka);
+  }
   srv_ep = NULL;
   for (int k = 0; k < nsess; k++) {
     int nstart = 1, maxrt = 4, est0 = 1, udp = 1;
@@ -199,6 +256,9 @@ static void do_case(void) {
     coap_session_set_nstart(sess[k], (uint16_t)nstart);
     coap_session_set_max_retransmit(sess[k], (uint16_t)maxrt);
     if (!est0) sess[k]->state = COAP_SESSION_STATE_HANDSHAKE;
+    /* ids of the messages the library creates itself (pings): 50001 + 1000 k, 50002 + .. (the
+     * generator's own ids stay below 45000) */
+    sess[k]->tx_mid = (uint16_t)(50000 + 1000 * k);
   }
   recording = 1;
   for (int i = 3 + nsess; i < vntok; i++) {
@@ -208,7 +268,9 @@ static void do_case(void) {
     const char *ret = "";
     ilen = 0;
     items[0] = 0;
-    if (op[0] == 'E') {                       /* the next n socket writes fail (ENOBUFS) */
+    if (op[0] == 'K') {                       /* keepalive period of a natural-time case: see above */
+      cur_sid = -1;
+    } else if (op[0] == 'E') {                /* the next n socket writes fail (ENOBUFS) */
       cur_sid = -1;
       fail_next_write = 1;
     } else if (op[0] == 'W') {                /* natural time: advance, fire what is due */
@@ -225,19 +287,7 @@ static void do_case(void) {
       case 'S': {
         sscanf(comma + 1, "%c,%d,%d", &ty, &a, &b);
         /* a client session sends requests, a server-side session responses / notifications */
-        /* some variety that must not matter to the accounting: method / response code, a
-         * Uri-Path option, a payload (all derived from the message id) */
-        static const coap_pdu_code_t req_code[3] = {COAP_REQUEST_CODE_GET, COAP_REQUEST_CODE_POST,
-                                                    COAP_REQUEST_CODE_PUT};
-        static const coap_pdu_code_t rsp_code[3] = {COAP_RESPONSE_CODE_CONTENT, COAP_RESPONSE_CODE_CHANGED,
-                                                    COAP_RESPONSE_CODE_NOT_FOUND};
-        coap_pdu_t *p = coap_pdu_init(ty == 'c' ? COAP_MESSAGE_CON : COAP_MESSAGE_NON,
-                                      is_server[sid] ? rsp_code[a % 3] : req_code[a % 3],
-                                      (coap_mid_t)a, 64);
-        uint8_t tk[2] = {(uint8_t)(b >> 8), (uint8_t)b};
-        coap_add_token(p, 2, tk);
-        if (!is_server[sid] && (a & 2)) coap_add_option(p, COAP_OPTION_URI_PATH, 1, (const uint8_t *)"r");
-        if (a & 1) coap_add_data(p, 3, (const uint8_t *)"abc");
+        coap_pdu_t *p = mk_pdu(sid, ty, a, b);
         ret = coap_send(s, p) == COAP_INVALID_MID ? "X" : "A";
         break;
       }
@@ -254,12 +304,34 @@ static void do_case(void) {
         if (sscanf(comma + 1, "%d,%u", &a, &pm) != 2) pm = ++peer_mid;   /* peer's own message id */
         uint8_t d[8] = {0x52, 0x45, (uint8_t)(pm >> 8), (uint8_t)pm,
                         (uint8_t)(a >> 8), (uint8_t)a, 0xff, 'x'};
-        if (!dead[sid]) inject(sid, d, 8);
+        /* token 0 = the empty token (what the library's own ping carries) */
+        uint8_t d0[6] = {0x50, 0x45, (uint8_t)(pm >> 8), (uint8_t)pm, 0xff, 'x'};
+        if (!dead[sid]) {
+          if (a == 0) inject(sid, d0, 6);
+          else inject(sid, d, 8);
+        }
         break;
       }
       case 'T':
         a = atoi(comma + 1);
         if (!dead[sid]) fire_timer(s, a);
+        break;
+      case 'H':            /* declare a resubmitting nack handler, see on_nack */
+        if (nhooks < MAXHOOK) {
+          int nm = 0, nt = 0;
+          sscanf(comma + 1, "%d,%d,%d", &a, &nm, &nt);
+          hooks[nhooks].sid = sid; hooks[nhooks].mid = a; hooks[nhooks].newmid = nm;
+          hooks[nhooks].newtok = nt; hooks[nhooks].used = 0;
+          nhooks++;
+        }
+        break;
+      case 'G':            /* the keepalive period of this (client) session is over: the library's
+                              timer code sends its ping if it wants to (coap_io_prepare_io) */
+        if (!is_server[sid] && !dead[sid]) {
+          s->last_rx_tx = 0;
+          vn_prepare(ctx);
+          if (s->last_rx_tx == 0) s->last_rx_tx = vn_now;   /* no ping wanted now: not later either */
+        }
         break;
       case 'M': {          /* a multicast NON GET /r from the session's peer (server-side sessions):
                               the response is delayed through the send queue (leisure) */
@@ -293,7 +365,9 @@ static void do_case(void) {
       case 'F':
         a = atoi(comma + 1);
         if (!dead[sid]) {
+          in_disconnect = 1;
           coap_session_disconnected(s, (coap_nack_reason_t)a);
+          in_disconnect = 0;
           /* the disconnect closes a client session's socket; a server-side session goes on */
           if (a != COAP_NACK_ICMP_ISSUE && !is_server[sid]) dead[sid] = 1;
         }
